@@ -20,6 +20,7 @@
    ("rel_..." below never mentions an origin) and the origin is added at the end.  No proofs here. *)
 From Coq Require Import ZArith List Bool QArith.
 From PAV Require Import Base.Res Base.Check Base.NumOps.
+From PAV Require Model.C10.
 Import ListNotations.
 Local Open Scope Z_scope.
 
@@ -75,6 +76,9 @@ Definition zoom_region (m : mask) : option (Z * Z * Z * Z) :=      (* y0, y1 + 1
 Definition zoom_shape (m : mask) : option (Z * Z) :=
   match zoom_region m with Some (a, b, c, d) => Some (b - a, d - c) | None => None end.
 Definition gather {A} (d : A) (l : list A) (idx : list nat) : list A := map (fun i => nth i l d) idx.
+(* derive_indexes.edge_slim / border_slim: C10's models of mask_2d_util.edge_1d_indexes_from / border_slim_indexes_from *)
+Definition edge_sel (m : mask) : list nat := map Z.to_nat (Model.C10.edge_slim m).
+Definition border_sel (m : mask) : list nat := map Z.to_nat (Model.C10.border_slim m).
 
 Section Model.
   Context {O : NumOps}.
@@ -494,7 +498,7 @@ Definition qext_eqb (a b : Q * Q * Q * Q) : bool :=
   Qeq_bool a0 b0 && Qeq_bool a1 b1 && Qeq_bool a2 b2 && Qeq_bool a3 b3.
 
 Inductive gop :=
-| GFromMask | GAllFalse | GSel (idx : list nat) | GDerived (bm : mask) | GPadded (kh kw : Z) | GOver (subs : list Z)
+| GFromMask | GAllFalse | GEdge | GBorder | GSel (idx : list nat) | GDerived (bm : mask) | GPadded (kh kw : Z) | GOver (subs : list Z)
 | GOverSel (subs : list Z) (idx : list nat)
 | GRadial (c : qpt) (shape_slim : Z) (remove_centre : bool) | GOverlay (sy sx : Z)
 | GHilbertImage (n : Z) | GHilbertCurve (curve : list qpt) (radius : Q)
@@ -508,6 +512,8 @@ Definition gop_model (op : gop) (M : QM) : res (list qpt) :=
   | GFromMask => Ok (from_mask M)
   | GAllFalse => Ok (derive_grid_all_false M)
   | GSel idx => Ok (derive_grid_sel (fun _ => idx) M)
+  | GEdge => Ok (derive_grid_sel edge_sel M)
+  | GBorder => Ok (derive_grid_sel border_sel M)
   | GDerived bm => Ok (blurring_grid_from (fun _ => bm) M)
   | GPadded kh kw => Ok (padded_grid_from M kh kw)
   | GOver subs => Ok (over_sampled_grid M subs)
@@ -526,6 +532,8 @@ Definition gop_spec (op : gop) (M : QM) : res (list qpt) :=
   | GFromMask => Ok (shift o (rel_grid m ps))
   | GAllFalse => Ok (shift o (rel_grid (all_false H W) ps))
   | GSel idx => Ok (gather (@zpt QOps) (shift o (rel_grid m ps)) idx)
+  | GEdge => Ok (gather (@zpt QOps) (shift o (rel_grid m ps)) (edge_sel m))
+  | GBorder => Ok (gather (@zpt QOps) (shift o (rel_grid m ps)) (border_sel m))
   | GDerived bm => Ok (shift o (rel_grid bm ps))
   | GPadded kh kw => Ok (shift o (rel_grid (all_false (H + kh - 1) (W + kw - 1)) ps))
   | GOver subs => Ok (shift o (rel_over m ps subs))
@@ -682,7 +690,7 @@ Definition gop_translated (d : qpt) (a b : gop) : bool :=
   | GHilbertCurve c r, GHilbertCurve c' r' => qg_eqb c c' && Qeq_bool r r'
   | GScaledOfPixels p, GScaledOfPixels p' | GScaledOfPixelCentres p, GScaledOfPixelCentres p' => qg_eqb p p'
   | GSubtracted f, GSubtracted f' => qpt_eqb f f'
-  | GFromMask, GFromMask | GAllFalse, GAllFalse => true
+  | GFromMask, GFromMask | GAllFalse, GAllFalse | GEdge, GEdge | GBorder, GBorder => true
   | _, _ => false
   end.
 Definition mop_same (a b : mop) : bool :=
